@@ -530,8 +530,39 @@ func replayModel(prog *Prog, o *Oblig, r *SolveResult, path string) (confirmed b
 func evalClauseConcrete(prog *Prog, o *Oblig, model, observed map[string]string) (bool, string) {
 	old := o.vc
 	vc := newFnVC(prog, old.fn, old.fc)
+	// same signature as the original VC (declarations only, no facts)
+	vc.decls = append([]string{}, old.decls...)
+	for k, v := range old.declSet {
+		vc.declSet[k] = v
+	}
+	vc.benign = map[int]bool{}
+	for k, v := range old.benign {
+		vc.benign[k] = v
+	}
+	for k, v := range old.entryHeap {
+		vc.entryHeap[k] = v
+	}
+	for k, v := range old.compSort {
+		vc.compSort[k] = v
+	}
+	for k, v := range old.compType {
+		vc.compType[k] = v
+	}
+	for k, v := range old.subrefDeclared {
+		vc.subrefDeclared[k] = v
+	}
+	for k, v := range old.strIntern {
+		vc.strIntern[k] = v
+	}
+	for k, v := range old.globals {
+		vc.globals[k] = v
+	}
+	vc.globalErrs = append([]string{}, old.globalErrs...)
+	vc.refTagN = old.refTagN
+	vc.fresh = old.fresh + 100000
+	vc.heapVer = old.heapVer + 100000
 	vc.setupEntry()
-	vc.collectInputs()
+	vc.inputs = old.inputs
 	// bind inputs
 	for _, in := range vc.inputs {
 		if v, ok := model[in.Name]; ok && !strings.HasPrefix(in.Sort, "(Array") {
